@@ -61,31 +61,35 @@ func (n *UnaryExpressionNode) String() string {
 
 	buff.WriteString(n.Op.FetchValue())
 
+	var operand strings.Builder
+	parens := ExpressionPrecedence(n) > ExpressionPrecedence(n.Right)
+	if parens {
+		operand.WriteRune('(')
+	}
+	operand.WriteString(n.Right.String())
+	if parens {
+		operand.WriteRune(')')
+	}
+
 	// keep the operator from merging with the operand
 	// into another token eg. `- -a`, `< ::Foo`, `< -1`
 	switch n.Op.Type {
-	case token.PLUS, token.MINUS, token.BANG, token.TILDE:
-		switch n.Right.(type) {
-		case *UnaryExpressionNode:
+	case token.PLUS, token.MINUS, token.TILDE:
+		if _, ok := n.Right.(*UnaryExpressionNode); ok {
 			buff.WriteRune(' ')
-		case *HashMapLiteralNode:
-			if n.Op.Type == token.BANG {
-				// `!{` begins a short unquote
-				buff.WriteRune(' ')
-			}
+		}
+	case token.BANG:
+		if _, ok := n.Right.(*UnaryExpressionNode); ok {
+			buff.WriteRune(' ')
+		} else if strings.HasPrefix(operand.String(), "{") {
+			// `!{` begins a short unquote
+			buff.WriteRune(' ')
 		}
 	default:
 		buff.WriteRune(' ')
 	}
 
-	parens := ExpressionPrecedence(n) > ExpressionPrecedence(n.Right)
-	if parens {
-		buff.WriteRune('(')
-	}
-	buff.WriteString(n.Right.String())
-	if parens {
-		buff.WriteRune(')')
-	}
+	buff.WriteString(operand.String())
 
 	return buff.String()
 }
